@@ -418,6 +418,7 @@ func execC17(sc *core.Scenario) *core.Result {
 	for _, f := range pi.W {
 		env.initW[f] = "builtin:" + f
 	}
+	builtinU := map[string]native.Unserializer{}
 	for _, f := range pi.R {
 		u, err := reader.GetFormatUnserializer(formats.Format(f))
 		if err != nil || u == nil {
@@ -427,6 +428,29 @@ func execC17(sc *core.Scenario) *core.Result {
 		if _, dup := env.rPtr[u]; !dup {
 			env.rPtr[u] = "builtin:" + f
 		}
+		builtinU[f] = u
+	}
+	// The reference results (what each built-in driver returns for each stream, what detection returns)
+	// are computed AFTER the concurrent phase, from the driver objects captured here: computing them
+	// first would warm every lazily filled cache with exactly the inputs of the run, and the
+	// concurrent phase would only ever read them.
+	soloTables := func() {
+		for _, f := range pi.R {
+			u := builtinU[f]
+			for _, b := range env.streams {
+				var out string
+				func() {
+					defer func() {
+						if p := recover(); p != nil {
+							out = "panic"
+						}
+					}()
+					d, err := u.Unserialize(bytes.NewReader(b), &native.UnserializeOptions{}, nil)
+					out = parseOutcome(d, err)
+				}()
+				env.soloParse[f] = append(env.soloParse[f], out)
+			}
+		}
 		for _, b := range env.streams {
 			var out string
 			func() {
@@ -435,24 +459,11 @@ func execC17(sc *core.Scenario) *core.Result {
 						out = "panic"
 					}
 				}()
-				d, err := u.Unserialize(bytes.NewReader(b), &native.UnserializeOptions{}, nil)
-				out = parseOutcome(d, err)
+				f, err := (&formats.Sniffer{}).SniffReader(bytes.NewReader(b))
+				out = sniffOutcome(f, err)
 			}()
-			env.soloParse[f] = append(env.soloParse[f], out)
+			env.soloSniff = append(env.soloSniff, out)
 		}
-	}
-	for _, b := range env.streams {
-		var out string
-		func() {
-			defer func() {
-				if p := recover(); p != nil {
-					out = "panic"
-				}
-			}()
-			f, err := (&formats.Sniffer{}).SniffReader(bytes.NewReader(b))
-			out = sniffOutcome(f, err)
-		}()
-		env.soloSniff = append(env.soloSniff, out)
 	}
 	if sp.PreInit {
 		writer.New()
@@ -491,6 +502,8 @@ func execC17(sc *core.Scenario) *core.Result {
 	}
 
 	// ---- return values: linearizability against the registry model ----
+	simos.Mount(nil)
+	soloTables()
 	if !sr.Hang && !sr.Deadlock {
 		env.checkLin(res, recs)
 	}
